@@ -14,6 +14,18 @@ TYPES = [
 ]
 
 
+class RelInterp(Interp):
+    """Relative setter: the inner call to the absolute setter is cut and answers Ok(()) - its own
+    acceptance predicate is the separate obligation C12.setter_predicate.<type>; whether the clamped
+    product lies inside it is decided by the Kani harnesses c12_rel_*_a / c12_rel_as_abs_* (the
+    full-width FP query for it did not finish in z3 within 600 s)."""
+    def builtin(self, callee, args, st):
+        if re.sub(r"<impl at [^>]*>", "<impl>", callee).endswith("::set_resample_ratio"):
+            self.models_used.add("inner set_resample_ratio cut: answers Ok(()) (decided by C12.setter_predicate.*)")
+            return True, Variant("Ok", 0, [()])
+        return super().builtin(callee, args, st)
+
+
 def struct_fields(repo, path, name):
     src = open(repo + "/" + path).read()
     m = re.search(r"pub struct %s<T> \{(.*?)\n\}" % name, src, re.S)
@@ -34,28 +46,31 @@ def check(prog, tier="quick", repo=None):
     repo = repo or os.environ.get("RV_REPO", "/repo")
     from concurrent.futures import ProcessPoolExecutor
     obs, models = [], set()
-    with ProcessPoolExecutor(max_workers=4) as ex:
-        for o, m in ex.map(_one, [(prog.path, i, repo) for i in range(len(TYPES))]):
+    with ProcessPoolExecutor(max_workers=8) as ex:
+        for o, m in ex.map(_one, [(prog.path, i, repo, mode) for mode in ("abs", "rel") for i in range(len(TYPES))]):
             obs += o
             models |= set(m)
     return obs, sorted(models)
 
 
 def _one(arg):
-    path, i, repo = arg
+    path, i, repo, mode = arg
     from .mir import Program
-    return check_types(Program(path), [TYPES[i]], repo)
+    return check_types(Program(path), [TYPES[i]], repo, mode)
 
 
-def check_types(prog, types, repo="/repo"):
+def check_types(prog, types, repo="/repo", mode="abs"):
+    """mode "abs": set_resample_ratio; mode "rel": set_resample_ratio_relative (the body of the
+    relative setter, with its inner call resolved to the same type's absolute setter)."""
     obs = []
     models = set()
     F = z3.Float64()
     for tname, path, nre, pre in types:
         t0 = time.time()
-        ob = dict(id="C12.setter_predicate." + tname, region="base", kind="obligation", function=None, verdict=None, detail="")
+        ob = dict(id=("C12.setter_predicate." if mode == "abs" else "C12.relative_predicate.") + tname, region="base", kind="obligation", function=None, verdict=None, detail="")
         try:
-            body = prog.one(nre, [pre])
+            abs_body = prog.one(nre, [pre])
+            body = abs_body if mode == "abs" else prog.one(nre.replace("set_resample_ratio$", "set_resample_ratio_relative$"), [pre])
             ob["function"] = body.short() + " (" + tname + ")"
             fields = struct_fields(repo, path, tname)
             orig, mx, r = z3.FP("orig", F), z3.FP("max", F), z3.FP("r", F)
@@ -74,7 +89,7 @@ def check_types(prog, types, repo="/repo"):
                 if c.endswith("update_needed_len"):
                     return prog.one(r"update_needed_len$")
                 return None
-            I = Interp(prog, FPDom(64), resolver=resolver)
+            I = (Interp if mode == "abs" else RelInterp)(prog, FPDom(64), resolver=resolver)
             I.ctx = {"sinc_len": 8}
             st = State()
             lim = lambda x: z3.FPVal(x, F)
@@ -85,7 +100,10 @@ def check_types(prog, types, repo="/repo"):
             leaves = list(I.run(body, [Ref(holder, 0), r, ramp], st))
             models |= I.models_used
             rm = z3.RNE()
-            spec = z3.And(z3.fpLEQ(z3.fpDiv(rm, orig, mx), r), z3.fpLEQ(r, z3.fpMul(rm, orig, mx)))
+            if mode == "abs":
+                spec = z3.And(z3.fpLEQ(z3.fpDiv(rm, orig, mx), r), z3.fpLEQ(r, z3.fpMul(rm, orig, mx)))
+            else:
+                spec = z3.And(z3.fpLEQ(z3.fpDiv(rm, z3.FPVal(1.0, F), mx), r), z3.fpLEQ(r, mx))
             bad = None
             n_ok = n_err = 0
             for s2, ret in leaves:
@@ -114,7 +132,7 @@ def check_types(prog, types, repo="/repo"):
                     same = (st_obj.fields[fi["resample_ratio"]] is cur or z3.eq(st_obj.fields[fi["resample_ratio"]], cur)) and \
                            z3.eq(st_obj.fields[fi["target_ratio"]], tgt)
                     err = ret.fields[0]
-                    pay = isinstance(err, Struct) and z3.eq(err.fields["provided"], r) and z3.eq(err.fields["original"], orig) \
+                    pay = mode == "rel" or isinstance(err, Struct) and z3.eq(err.fields["provided"], r) and z3.eq(err.fields["original"], orig) \
                         and z3.eq(err.fields["max_relative_ratio"], mx)
                     if not same:
                         ob["verdict"] = "violated"
